@@ -126,6 +126,8 @@ KINDS = {
 }
 LOCAL4, PEER4 = '127.0.0.1', '127.0.0.2'
 LOCAL6, PEER6 = '2001:db8::1', '2001:db8::2'
+OTHER_LOCAL4, OTHER_PEER4 = '192.0.2.254', '192.0.2.1'
+OTHER_LOCAL6, OTHER_PEER6 = '2001:db8:9::1', '2001:db8:9::2'
 
 
 def decider(ctx):
@@ -696,7 +698,7 @@ def h_nexthop_self(ctx, tier, famname, v6):
     resolved by the real Neighbor.resolve_self."""
     fam = FAMILIES[famname]
     d = decider(ctx)
-    how = ctx.pick('how', ['configured', 'object'])
+    how = ctx.pick('how', ['configured', 'object', 'shared'])
     kind = ctx.pick('kind', ['ibgp', 'ebgp'])
     text = {'ipv4-unicast': 'route 10.1.2.0/24 next-hop self',
             'ipv6-unicast': 'route 2001:db8:1::/48 next-hop self',
@@ -722,7 +724,16 @@ def h_nexthop_self(ctx, tier, famname, v6):
         afi = AFI(fam['afi'])
         attrs = AttributeCollection()
         attrs.add(NextHopSelf(afi))  # static.parser.next_hop: ('self') -> IPSelf(afi), NextHopSelf(afi)
-        route = neighbor.resolve_self(Route(nlri, attrs, nexthop=IPSelf(afi)))
+        parsed = Route(nlri, attrs, nexthop=IPSelf(afi))
+        if how == 'shared':
+            # one API "announce route ... next-hop self" addressed to several peers: Configuration.announce_route hands the
+            # SAME parsed route to every matching neighbor.  Another neighbor (another local address) resolved it first.
+            other = K.session('out', local_as=facts['local_as'], peer_as=facts['peer_as'], families=(fam['name'],), asn4=True,
+                              local=OTHER_LOCAL6 if v6 else OTHER_LOCAL4, peer=OTHER_PEER6 if v6 else OTHER_PEER4).neighbor
+            first = other.resolve_self(parsed)
+            ctx.check('other-session-resolved-its-own-address', first is not parsed, sig='C01:nexthop-self:route-not-copied')
+            ctx.cover('route-resolved-for-another-session-first')
+        route = neighbor.resolve_self(parsed)
     out = emit(ctx, neg, [RoutedNLRI(route.nlri, route.nexthop)], route.attributes)
     if isinstance(out, tuple):
         ctx.check('emits', False, sig='C01:nexthop-self:raised:%s' % exc_name(out[1]), info={'raised': str(out[1])})
@@ -824,7 +835,7 @@ def units(tier):
             us.append(U('long-path/%s/%s' % (f, kind), lambda ctx, f=f, k=kind: h_route(ctx, 'quick', f, k, ['long']),
                         must_cover=('emitted', 'extended-length'), weight=60))
     for f, v6 in (('ipv4-unicast', False), ('ipv6-unicast', True), ('ipv4-nlri-mpls', False), ('ipv4-mpls-vpn', False)):
-        us.append(U('nexthop-self/%s' % f, lambda ctx, f=f, v6=v6: h_nexthop_self(ctx, tier, f, v6), must_cover=('nexthop-self',), weight=20))
+        us.append(U('nexthop-self/%s' % f, lambda ctx, f=f, v6=v6: h_nexthop_self(ctx, tier, f, v6), must_cover=('nexthop-self', 'route-resolved-for-another-session-first'), weight=30))
     if thorough:
         for f in fams:
             us.append(U('two/%s/one-hop' % f, lambda ctx, f=f: h_two(ctx, tier, f, False), must_cover=('emitted',), max_seconds=1200, weight=150))
